@@ -33,7 +33,7 @@ pub const SECRET_TYPES: [&str; 10] = [
 ];
 
 /// (container id, secret type it is checked for)
-pub const CONTAINERS: [(u8, &str); 19] = [
+pub const CONTAINERS: [(u8, &str); 20] = [
     (10, "ClientSecret"),            // Client
     (11, "AuthorizationCode"),       // CodeTokenRequest.code
     (12, "PkceCodeVerifier"),        // CodeTokenRequest.pkce_verifier
@@ -53,7 +53,29 @@ pub const CONTAINERS: [(u8, &str); 19] = [
     (26, "VerificationUriComplete"), // DeviceAuthorizationResponse
     (27, "AccessToken"),             // extension token response, nested in Option<Vec<(..)>>
     (28, "RefreshToken"),            // StandardRevocableToken alone
+    (29, "DeviceCode"),              // DeviceAccessTokenRequest: not Debug on the pinned tree; formatted IF it ever becomes Debug
 ];
+
+/// `{:?}` / `{:#?}` of a value whose type may or may not implement Debug (autoref specialisation): a type that GAINS a
+/// Debug impl is formatted from then on, without this harness having to be edited
+struct MaybeDebug<'a, T>(&'a T);
+trait ViaDebug {
+    fn render(&self) -> (String, String);
+}
+impl<'a, T: std::fmt::Debug> ViaDebug for MaybeDebug<'a, T> {
+    fn render(&self) -> (String, String) {
+        two(self.0)
+    }
+}
+trait ViaNothing {
+    fn render(&self) -> (String, String);
+}
+impl<'a, T> ViaNothing for &MaybeDebug<'a, T> {
+    fn render(&self) -> (String, String) {
+        (NOT_DEBUG.to_string(), NOT_DEBUG.to_string())
+    }
+}
+const NOT_DEBUG: &str = "<type is not Debug>";
 
 fn two<T: std::fmt::Debug>(v: &T) -> (String, String) {
     (format!("{:?}", v), format!("{:#?}", v))
@@ -156,6 +178,13 @@ fn container(id: u8, s: &str) -> (String, String) {
             let t = ExtTokenResponse::new(AccessToken::new(sec.clone()), BasicTokenType::Extension("x".into()), IdExt { id_token: "public-id".into(), session: None });
             two(&Some(vec![(t, 1u8)]))
         }
+        29 => {
+            let doc = serde_json::json!({"device_code": sec.clone(), "user_code": format!("{sec}#uc"), "verification_uri": "https://v.example/",
+                "verification_uri_complete": format!("{sec}#vc"), "expires_in": 600, "interval": 5});
+            let d: StandardDeviceAuthorizationResponse = serde_json::from_value(doc).unwrap();
+            let rq = c.exchange_device_access_token(&d).add_extra_param("k", "v");
+            (&MaybeDebug(&rq)).render()
+        }
         _ => two(&StandardRevocableToken::RefreshToken(RefreshToken::new(sec.clone()))),
     }
 }
@@ -241,7 +270,7 @@ impl CaseInput for DbgCase {
                 }
             }
         }
-        if self.shape != 6 && !p1.contains(&format!("{tyname}([redacted])")) {
+        if self.shape != 6 && p1 != NOT_DEBUG && !p1.contains(&format!("{tyname}([redacted])")) {
             oracle.push(("C10:not-redacted-marker".into(), format!("shape {}: {:?}", self.shape, truncate(&p1))));
         }
         let line = format!("dbg {} {} {} {} | {} {} {} {}", self.shape, hs(tyname), hs(&self.s1), hs(&self.s2), hs(&p1), hs(&q1), hs(&p2), hs(&q2));
